@@ -359,6 +359,48 @@ func driveRegs(w *writer) error {
 				e["after"] = ints(data)
 				evs = append(evs, e)
 			}
+			// the same (mixed) field list extracted twice from a COIL response: the second extraction must see the
+			// same request and give the same results, and the coil payload stays as it was
+			if len(c.Rounds) > 0 {
+				fields := modbus.Fields{}
+				for _, idx := range c.Rounds[0] {
+					fields = append(fields, fieldOf(c.Calls[idx], idx))
+				}
+				fields = append(fields, modbus.Field{Name: "coil-a", ServerAddress: "x:1", UnitID: 1, Address: uint16(c.Start) + 1, Type: modbus.FieldTypeCoil},
+					modbus.Field{Name: "coil-b", ServerAddress: "x:1", UnitID: 1, Address: uint16(c.Start) + 9, Type: modbus.FieldTypeCoil})
+				cdata := []byte{0xA5, 0x3C, 0x0F}
+				cresp := &packet.ReadCoilsResponseTCP{ReadCoilsResponse: packet.ReadCoilsResponse{UnitID: 1, CoilsByteLength: 3, Data: cdata}}
+				br := modbus.BuilderRequest{StartAddress: uint16(c.Start), Fields: fields}
+				names := func() []string {
+					out := []string{}
+					for _, f := range br.Fields {
+						out = append(out, f.Name)
+					}
+					return out
+				}
+				e := Ev{"ev": "coilrepeat", "outcome": "ok", "first": []string{}, "second": []string{}, "fieldsBefore": names(), "fieldsAfter": []string{}, "payloadAfter": []int{}}
+				func() {
+					defer func() {
+						if p := recover(); p != nil {
+							e["outcome"] = "panic"
+						}
+					}()
+					render := func(vals []modbus.FieldValue) []string {
+						out := []string{}
+						for _, fv := range vals {
+							out = append(out, fmt.Sprintf("%s=%v/%v", fv.Field.Name, fv.Value, fv.Error != nil))
+						}
+						return out
+					}
+					v1, _ := br.ExtractFields(cresp, true)
+					e["first"] = render(v1)
+					v2, _ := br.ExtractFields(cresp, true)
+					e["second"] = render(v2)
+				}()
+				e["fieldsAfter"] = names()
+				e["payloadAfter"] = ints(cdata)
+				evs = append(evs, e)
+			}
 			w.emitAll(evs)
 		default:
 			return fmt.Errorf("unknown regs op %q", c.Op)
